@@ -60,7 +60,7 @@ func main() {
 	if t := os.Getenv("VERIF_TIER"); t != "" && (t == "quick" || t == "thorough") {
 		*tier = t
 	}
-	eng := &Engine{repo: *repo, extraImports: map[string][][2]string{}}
+	eng := &Engine{repo: *repo, extraImports: map[string][][2]string{}, noPrune: os.Getenv("GOVC_NOPRUNE") != ""}
 	if err := eng.Load(); err != nil {
 		fmt.Fprintf(os.Stderr, "govc: load failed:\n%v\n", err)
 		os.Exit(2)
@@ -371,7 +371,7 @@ func (r *Report) print(verbose bool) {
 	}
 	for _, u := range r.units {
 		if verbose {
-			fmt.Printf("unit %s: %d obligations, %d paths, %.1fs %s\n", u.Key, len(u.Obls), u.Paths, u.Seconds, u.Unsupported)
+			fmt.Printf("unit %s: %d obligations, %d paths (%d branches pruned), %.1fs %s\n", u.Key, len(u.Obls), u.Paths, u.Pruned, u.Seconds, u.Unsupported)
 			for _, n := range u.Notes {
 				fmt.Printf("     note: %s\n", n)
 			}
